@@ -29,7 +29,7 @@ func (s *Struct) Build(gen Generator, ctx *MethodContext, sourceID *xtype.JenID,
 }
 
 func (s *Struct) Assign(gen Generator, ctx *MethodContext, assignTo *AssignTo, sourceID *xtype.JenID, source, target *xtype.Type, errPath ErrorPath) ([]jen.Code, *Error) {
-	additionalFieldSources, err := parseAutoMap(ctx, source)
+	additionalFieldSources, err := parseAutoMap(ctx, source, target)
 	if err != nil {
 		return nil, err
 	}
@@ -319,8 +319,12 @@ func mapField(
 	return returnID, nextSource, stmt, lift, false, nil
 }
 
-func parseAutoMap(ctx *MethodContext, source *xtype.Type) ([]xtype.FieldSources, *Error) {
+func parseAutoMap(ctx *MethodContext, source, target *xtype.Type) ([]xtype.FieldSources, *Error) {
 	fieldSources := []xtype.FieldSources{}
+	if ctx.FieldsTarget != target.String {
+		// like map and ignore, autoMap only applies to the target struct of the method
+		return fieldSources, nil
+	}
 	for _, field := range ctx.Conf.AutoMap {
 		innerSource := source
 		lift := []*Path{}
